@@ -884,17 +884,60 @@ func regsFor(im *impl, segs []Seg, design []string) []Reg {
 	return out
 }
 
-// shapes with <= 3 nodes: parent index of each node (-1 = root)
+// shapes with <= 3 nodes: parent index of each node (-1 = root); every {collection,simple} assignment
 var shapes = [][]int{{-1}, {-1, -1}, {-1, 0}, {-1, -1, -1}, {-1, 0, -1}, {-1, 0, 0}, {-1, 0, 1}}
+
+// deep shapes: sibling sub-resources below one parent at depth 2..7 (depth = number of path segments), with names sharing
+// prefixes (sub / subs / su), children below a sibling, two roots with sibling chains.  Not every {collection,simple}
+// assignment (2^8): all collections plus seeded assignments.
+var deepShapes = [][]int{
+	{-1, 0, 1, 2, 2},           // a/b/c/{x,y}: two siblings at depth 4
+	{-1, 0, 1, 2, 2, 2, 3},     // three siblings at depth 4, a child (depth 5) below the first one
+	{-1, 0, 0, 1, 1, 2, 2},     // siblings at depth 2 and below each of them at depth 3
+	{-1, 0, 1, 2, 3, 4, 5, 5},  // two siblings at depth 7
+	{-1, -1, 0, 0, 2, 2, 4, 4}, // two roots; sibling pairs at depth 2, 3 and 4 below the first
+}
+var deepNames = []string{"sub", "subs", "su", "item", "items"}
+
+type shapeSpec struct {
+	parents []int
+	masks   []int // collection bit per node
+	deep    bool
+}
+
+func allShapes(r *hx.Rand, thorough bool) []shapeSpec {
+	var out []shapeSpec
+	for _, sh := range shapes {
+		sp := shapeSpec{parents: sh}
+		for k := 0; k < 1<<len(sh); k++ {
+			sp.masks = append(sp.masks, k)
+		}
+		out = append(out, sp)
+	}
+	for _, sh := range deepShapes {
+		all := 1<<len(sh) - 1
+		sp := shapeSpec{parents: sh, deep: true, masks: []int{all, r.Intn(all + 1)}}
+		if thorough {
+			sp.masks = append(sp.masks, 0x55&all, r.Intn(all+1))
+		}
+		out = append(out, sp)
+	}
+	return out
+}
 
 func makeTrees(im *impl, r *hx.Rand, variants int) []treeSpec {
 	var out []treeSpec
 	di := 0
 	for v := 0; v < variants; v++ {
-		for _, sh := range shapes {
-			for kinds := 0; kinds < 1<<len(sh); kinds++ {
+		for _, spec := range allShapes(r, variants > 1) {
+			sh := spec.parents
+			if spec.deep && v > 0 {
+				continue // the deep shapes once (their request product is 3-4 times that of a 3-node tree)
+			}
+			for _, kinds := range spec.masks {
 				paths := make([][]Seg, len(sh))
 				nRoot, nSub := 0, 0
+				nKids := make([]int, len(sh))
 				var regs []Reg
 				label := fmt.Sprintf("shape%v/kinds%0*b/v%d", sh, len(sh), kinds, v)
 				for i, p := range sh {
@@ -902,11 +945,18 @@ func makeTrees(im *impl, r *hx.Rand, variants int) []treeSpec {
 					if p < 0 {
 						paths[i] = []Seg{{rootNames[nRoot], coll}}
 						nRoot++
+					} else if spec.deep {
+						// the k-th child of a node: sub, subs, su, ... (siblings whose names are prefixes of each other)
+						paths[i] = append(append([]Seg{}, paths[p]...), Seg{deepNames[nKids[p]%len(deepNames)], coll})
+						nKids[p]++
 					} else {
 						paths[i] = append(append([]Seg{}, paths[p]...), Seg{subNames[nSub%2], coll})
 						nSub++
 					}
 					d := designs[di%len(designs)]
+					if spec.deep && len(d) < 3 {
+						d = designs[(di+2)%len(designs)] // deep nodes always have methods to route to
+					}
 					if v > 0 && r.Chance(50) {
 						// a random subset of the full design
 						d = nil
@@ -946,12 +996,24 @@ func makeTrees(im *impl, r *hx.Rand, variants int) []treeSpec {
 					t.late = append(t.late, regsFor(im, first, []string{"A:act"})...)
 				}
 				t.late = append(t.late, regsFor(im, append(append([]Seg{}, first...), Seg{ghostSub, true}), []string{"get", "get_all"})...)
+				if last := paths[len(paths)-1]; len(last) > 2 {
+					// a new sibling of the deepest node (must not show through, nor disturb, a handler obtained earlier)
+					t.late = append(t.late, regsFor(im, append(append([]Seg{}, last[:len(last)-1]...), Seg{ghostSub, false}), []string{"get", "update"})...)
+				}
 				t.late = append(t.late, regsFor(im, []Seg{{ghostRoot, false}}, []string{"get"})...)
 				out = append(out, t)
 			}
 		}
 	}
 	return out
+}
+
+func segNames(p []Seg) string {
+	names := make([]string, len(p))
+	for i, s := range p {
+		names[i] = s.Name
+	}
+	return strings.Join(names, "/")
 }
 
 func relPaths(t treeSpec, thorough bool) []string {
@@ -1042,7 +1104,7 @@ func mix(a, b uint64) uint64 {
 
 func main() {
 	cfg := hx.ParseFlags()
-	rep := hx.NewReport("resource trees: every shape with <= 3 nodes ({1 root},{2 roots},{root>sub},{3 roots},{root>sub, root},{root>sub,sub},{root>sub>sub}) x every {collection,simple} assignment x method/finder/action subsets from a 12-row covering design (thorough: plus seeded random subsets), registered in shuffled order on the REAL v2 and root-module servers; " +
+	rep := hx.NewReport("resource trees: every shape with <= 3 nodes ({1 root},{2 roots},{root>sub},{3 roots},{root>sub, root},{root>sub,sub},{root>sub>sub}) x every {collection,simple} assignment, plus deep shapes (5-8 nodes: two / three sibling sub-resources at depth 4 with a child at depth 5, sibling pairs at depths 2 and 3, at depth 7, two roots with sibling pairs at depths 2-4; sibling names are prefixes of each other: sub, subs, su; all collections and seeded {collection,simple} assignments; late registration of a new sibling of the deepest node) x method/finder/action subsets from a 12-row covering design (thorough: plus seeded random subsets), registered in shuffled order on the REAL v2 and root-module servers; " +
 		"requests: verb x X-RestLi-Method value (absent, the 13 names, unknown) x path shape (resource, trailing slash, key, key/sub-resource, unknown sub-resource, malformed key, prefix only, unknown root, escaped root name, empty and dot segments) x query (q registered/unregistered/empty, ids, action, combinations, duplicate, invalid) - FULL product on every tree for the first configuration, a deterministic 1/8 sample for the others - x tunnelled x body x filter lists (0-3 of passing/context-adding/failing-pre/failing-post) x mount (bare, ServeMux, prefix, prefix+ServeMux) x method failing x handler obtained before/after late registrations. " +
 		"non-trivial = the request is routed to a method (a stub ran or was about to run) or is rejected below the root level; distinct by (tree, configuration, request)")
 	r := hx.NewRand(cfg.Seed)
@@ -1208,6 +1270,10 @@ func main() {
 							}
 							// cases for the Coq model: every behaviour class of every configuration, plus a stride
 							ck := fmt.Sprintf("%d/%s/%s/%d", ci, cls, verb, len(d.Obs.Events))
+							if rr.target != nil && len(rr.target.Path) > 1 {
+								// ... of every routed sub-resource (node identity matters: siblings, depth)
+								ck += "/" + segNames(rr.target.Path)
+							}
 							if classSeen[ck] < classCap || h%coqStride == 1 {
 								classSeen[ck]++
 								res.picked = append(res.picked, pend{im, opsKey, d})
